@@ -350,7 +350,14 @@ theorem append_spec (dbg : Bool) (b : Bitmap) (h : b.WF) (vs : List Nat) (hvs : 
 /-- iter.rs `Extend<u32>` / `FromIterator` -/
 theorem extend_spec (b : Bitmap) (h : b.WF) (vs : List Nat) (hvs : ∀ v ∈ vs, v < 4294967296) :
     (extend b vs).WF ∧ elems (extend b vs) = Spec.extend (elems b) vs := by
-  sorry
+  unfold extend Spec.extend
+  induction vs generalizing b with
+  | nil => exact ⟨h, rfl⟩
+  | cons v vs ih =>
+    obtain ⟨i1, i2, _⟩ := insert_spec b h v (hvs v (List.mem_cons_self ..))
+    simp only [List.foldl_cons]
+    rw [← i2]
+    exact ih _ i1 (fun x hx => hvs x (List.mem_cons_of_mem _ hx))
 
 /-- inherent.rs:753 `remove_smallest` for every `n` (also `n ≥ len`) -/
 theorem removeSmallest_spec (b : Bitmap) (h : b.WF) (n : Nat) :
